@@ -294,3 +294,7 @@ def run(ctx):
     ctx.step(r10_3, ctx)
     ctx.step(r10_5, ctx)
     ctx.step(r10_6, ctx)
+    # files written by other releases are read correctly only if the format constants (version, index threshold, sentinels,
+    # common-input tables) are the documented ones: R09.1
+    from rules import formatrules
+    ctx.step(formatrules.constants, ctx)
